@@ -10,6 +10,10 @@ STREAM_NOTE = ("Trusted base: the Python reference model in vf/model.py + vf/pat
                "cover only the executions produced; cases outside the documented domain are "
                "not generated or not judged (DESIGN.md 2.3).")
 
+OTHER_NOTE = ("Trusted base: the check's own generators and oracles under vf/props (finite tables are "
+              "transcribed from doc/flex.texi), gcc/g++, nm, valgrind, strace, the sanitizer runtimes.  "
+              "Verdicts cover only the executions produced.")
+
 CHECKS = {
     "C01": dict(cat="exploration", tech="differential co-simulation against a reference model (random rule sets + model-guided inputs) under ASan/UBSan",
                 text="Random rule sets over the whole documented pattern language (plus 'large' profiles that force every generator array to grow) are printed in random documented spellings, compiled by the flex built from the working tree, and every scanner run is co-simulated event by event with an independent NFA-based model of the manual's matching rules; any sanitizer report, crash, hang or divergence is a violation.",
@@ -41,6 +45,36 @@ CHECKS = {
     "C11": dict(cat="exploration", tech="co-simulation of random buffer-operation histories with shared validity guards",
                 text="Random histories of create/switch/push/pop/delete/scan_bytes/scan_string/scan_buffer/flush from actions and between calls, executed only when valid by rules shared by harness and model; one byte queue per buffer in the model; caller memory is overwritten after scan_bytes/scan_string; flush positions are checked against bytes actually delivered.",
                 ref="4 C11"),
+    "C02": dict(cat="exploration", tech="differential co-simulation across 8-12 sampled configurations per rule set + refusal table",
+                text="Each rule set (with ^, trailing context, REJECT, yymore/yyless, NUL and 8-bit patterns) is built under configurations sampled from tables x align x 7/8 bit x -I/-B x %pointer/%array x {nr, reentrant, c99, C++} x {%option, command line}; every run must match the one model stream, hence all configurations agree; part B replays the manual's unsupported combinations and expects the documented refusal or warning.",
+                ref="4 C02"),
+    "C12": dict(cat="exploration", tech="multi-instance programs: seeded interleavings under ASan, one thread per instance under ThreadSanitizer, per-instance co-simulation; nm for multi-prefix links",
+                text="2-16 instances of one scanner (reentrant C, c99, C++ objects) in one process, each with its own input and log: interleaved on one thread by seeded schedules, and on one thread per instance under TSan with yields in the read path; each log must equal the instance's solo model stream; TSan reports are violations; scanners with different prefixes are linked into one program and their symbol tables checked.",
+                ref="4 C12"),
+    "C13": dict(cat="exploration", tech="ASan/UBSan + allocation ledger + destroy-and-reuse sessions over the workloads of C03-C11; memcheck sample",
+                text="The workloads of C03-C11 re-run with user allocators that keep a ledger (unknown pointers to yyfree/yyrealloc, blocks left after yylex_destroy), a second session on the destroyed scanner, %array tokens around YYLMAX, everything under ASan+UBSan, a sample under valgrind memcheck.",
+                ref="4 C13"),
+    "C14": dict(cat="fault_enumeration", tech="fault injection: k-th allocation failure for every k, EIO/EINTR at every read index, classification of the exit path",
+                text="For each scenario the allocation requests are counted and every single one is failed in turn; EIO and EINTR are injected at every read index of the fread, getc and read(2) paths; each faulty run must end in the fatal-error hook with the documented message or the documented error return, with an undisturbed prefix before it; EINTR must leave the stream identical.",
+                ref="4 C14"),
+    "C15": dict(cat="fault_enumeration", tech="round-trip co-simulation, independent parser of the file format, --tables-verify, concatenation, truncation at every offset",
+                text="Serialized-table scanners are co-simulated with the same model as the in-code build; the file is parsed by an independent reader of the documented layout; verify builds must accept their own file and reject one with a changed entry; sets are found by name in concatenations; every truncation point of small files (sampled for large) and wrong magic / name must fail cleanly under ASan.",
+                ref="4 C15"),
+    "C16": dict(cat="fault_enumeration", tech="mutation fuzzing of flex under ASan/UBSan, directed limit inputs, write-fault enumeration (/dev/full, missing directory, strace ENOSPC injection)",
+                text="flex itself is run on mutated specifications with random options, on directed limit inputs, and with every output file failing (device full, missing directory, ENOSPC on the k-th write through strace); verdict at the process boundary: no signal, no sanitizer report, bounded progress, exit 0 only with complete outputs, non-zero only with a diagnostic.",
+                ref="4 C16"),
+    "C17": dict(cat="exploration", tech="exhaustive reachability on the model automaton per rule set + execution witnesses",
+                text="Per rule set the model's subset automaton is explored exhaustively for every (start condition, BOL) pair: a rule is useful iff it is the first accepting rule of a reachable state; flex's warnings must match (only 'no false warning' with REJECT / variable trailing context); unwarned rules are confirmed by running a witness through the generated scanner; -w must not change the output.",
+                ref="4 C17"),
+    "C18": dict(cat="exploration", tech="differential generation under allocator/environment perturbation, memcheck, bootstrap comparison",
+                text="The same specification and options are generated under MALLOC_PERTURB_, an LD_PRELOAD junk-fill/padding allocator shim with skewed time(), other cwd/TMPDIR/argv[0], ASan fill bytes and -t; scanner, header, tables and backup files must be byte-identical; a sample runs under memcheck; scan.l is regenerated by the final flex and compared with the stage-1 scanner.",
+                ref="4 C18"),
+    "C19": dict(cat="exploration", tech="finite option table: nm, compile-time and run-time probes with/without each option, %option vs command line",
+                text="Every row of an option table transcribed from the manual is probed on a scanner built with the option as %option, on the command line, and without it (symbols, static assertions, pointer types, run-time output, files, diagnostics); a row only counts when the probe distinguishes with from without.",
+                ref="4 C19"),
+    "C20": dict(cat="exploration", tech="tracer payloads in every user-code region read back from the compiled scanner; #line self-consistency scan",
+                text="Specifications with tracers in every user-code region carry hostile payloads (m4 quotes, m4_/M4_ names, $1, quotes, comment delimiters, backslash-newline, high bytes) in strings, comments and stringified code; the compiled scanner reports payload bytes and __LINE__/__FILE__, which must equal the tracer's true position; every '#line N \"outfile\"' must sit at line N-1; noline must leave none.",
+                ref="4 C20"),
 }
 
 checks = []
@@ -53,11 +87,10 @@ for pid, c in sorted(CHECKS.items()):
         "replay_cmd_template": "python3 -m vf.check %s --replay {path}" % pid,
         "engine": "vf",
         "level_claimed": {"category": c["cat"], "text": c["text"], "design_ref": "DESIGN.md " + c["ref"]},
-        "level_note": c.get("note", STREAM_NOTE),
+        "level_note": c.get("note", STREAM_NOTE if pid in ("C01","C02","C03","C04","C05","C06","C07","C08","C09","C10","C11","C12","C13","C14","C15") else OTHER_NOTE),
         "technique": c["tech"],
     })
-na = [{"property_id": p["id"], "reason": "check under construction in this round (design in DESIGN.md section 4); not yet registered"}
-      for p in props if p["id"] not in CHECKS]
+na = [{"property_id": p["id"], "reason": "no check registered"} for p in props if p["id"] not in CHECKS]
 m = {
     "version": 1,
     "setup_cmd": "python3 -m vf.build plain && python3 -m vf.build san",
@@ -66,7 +99,7 @@ m = {
               "baseline_off_cmd": "make -C /repo -j8 check",
               "source_commits": [], "add_only": True},
     "engines": [{"name": "vf", "path": "vf/", "serves_properties": sorted(CHECKS),
-                 "kind_free_text": "runtime monitoring: generated scanners run under ASan/UBSan with an event log co-simulated against a reference model"}],
+                 "kind_free_text": "runtime monitoring: the flex built from /repo's working tree and the scanners it generates are run under ASan/UBSan/TSan/memcheck with event logs co-simulated against a reference model, differential comparison, ledgers and fault injection"}],
     "checks": checks,
     "not_applicable": na,
     "notes": "Exit 0 = held on everything explored; exit 1 + VIOLATION line = refuting execution with replay dir; exit 2 = harness failure or required coverage not observed (inconclusive).",
